@@ -266,6 +266,15 @@ def coll_catalogue(E):
         m = hier.Hierarchical(dtw.distance_matrix, {'use_c': use_c}, show_progress=False)
         return m.fit(s)
 
+    def kmfit(s, use_c):
+        from dtaidistance.clustering import kmeans as km
+        import random
+        np.random.seed(5)
+        random.seed(5)
+        model = km.KMeans(k=2, max_it=3, max_dba_it=2, drop_stddev=None, initialize_with_kmeanspp=False, dists_options={'use_c': use_c, 'window': 2}, show_progress=False)
+        cl, it = model.fit(s, use_parallel=False)
+        return (sorted((int(k), sorted(int(i) for i in v)) for k, v in cl.items()), [[float(x) for x in m] for m in model.means])
+
     def search(s, use_c):
         ss = subsequence_search(np.array(s[0], dtype=float), s, use_c=use_c)
         return [(m.distance, m.idx) for m in ss.kbest_matches(k=2)]
@@ -284,6 +293,10 @@ def coll_catalogue(E):
         ('dba_loop(use_c,keep_averages)', 'c', 1, lambda s: bc.dba_loop(s, c=None, max_it=2, thr=None, keep_averages=True, use_c=True)),
         ('dba_loop(c=s[1],window,penalty)', 'py', 1, lambda s: bc.dba_loop(s, c=s[1], max_it=2, thr=None, use_c=False, window=2, penalty=0.5)),
         ('dba_loop(use_c,mask)', 'c', 1, lambda s: bc.dba_loop(s, c=None, max_it=2, mask=np.array([True, False] + [True] * (len(s) - 2)), use_c=True)),
+        ('dba(use_c)', 'c', 1, lambda s: bc.dba(s, np.array(s[0], dtype=float).copy(), use_c=True)),
+        ('dba(use_c,mask)', 'c', 1, lambda s: bc.dba(s, np.array(s[1], dtype=float).copy(), mask=np.array([True] * (len(s) - 1) + [False]), use_c=True)),
+        ('KMeans.fit', 'py', 1, lambda s: kmfit(s, False)),
+        ('KMeans.fit(use_c)', 'c', 1, lambda s: kmfit(s, True)),
         ('Hierarchical.fit', 'py', 1, lambda s: hfit(s, False)),
         ('Hierarchical.fit(use_c)', 'c', 1, lambda s: hfit(s, True)),
         ('subsequence_search', 'py', 1, lambda s: search(s, False)),
@@ -395,6 +408,9 @@ def check_histories(acc, E, seed, scform, depth, shard, nshards):
     for n in names:
         S, a, b, boxes = fresh_objects(E, seed, scform)
         iso[n] = core.call(ops[n], S, a, b)
+        if isinstance(iso[n], core.Exc) and shard == 0:
+            acc.violation('history', 'shared objects', 'c', {'what': 'history', 'container': scform, 'last': n, 'depth': 0},
+                          {'history': [n], 'container': scform}, 'a result in isolation', repr(iso[n]))
         iso[n] = iso[n] if isinstance(iso[n], core.Exc) else canon(iso[n])
     idx = 0
     for d in range(1, depth + 1):
@@ -449,7 +465,8 @@ def model_kinds(E, seed):
     def matches(ms):
         return [(int(m.idx), float(m.distance)) for m in ms]
 
-    for use_c in (False, True):
+    def add_kinds(use_c):
+        # (a function, not a loop body: the operations below close over use_c)
         for md in (None, 1.2 * abs(a1 - a0)):
             def f_search(use_c=use_c, md=md):
                 return {'o': subsequence_search(query, cands, max_dist=md, use_lb=True, use_c=use_c)}
@@ -470,9 +487,8 @@ def model_kinds(E, seed):
             lc = local_concurrences(long_, None, gamma=1, tau=0.5, delta=-0.5, delta_factor=0.5, use_c=use_c)
             return {'o': lc}
         kinds.append(('LocalConcurrences(%s)' % ('c' if use_c else 'py'), f_lc,
-                      {'k1': lambda st: [[tuple(int(v) for v in q) for q in m.path] for m in st['o'].kbest_matches(k=1, minlen=2, buffer=1)],
-                       'k2': lambda st: [[tuple(int(v) for v in q) for q in m.path] for m in st['o'].kbest_matches(k=2, minlen=2, buffer=1)],
-                       'wp': lambda st: st['o'].wp[:, :] if hasattr(st['o'].wp, '__getitem__') and not use_c else None}))
+                      {'k1': lambda st: [[tuple(int(v) for v in q) for q in m.path] for m in st['o'].kbest_matches(k=1, minlen=2, buffer=(0 if use_c else 1))],
+                       'k2': lambda st: [[tuple(int(v) for v in q) for q in m.path] for m in st['o'].kbest_matches(k=2, minlen=2, buffer=(0 if use_c else 1))]}))   # (the wp property exposes the working matrix with the consumed cells marked: state, not a result)
 
         def f_hier(use_c=use_c):
             return {'o': hier.Hierarchical(dtw.distance_matrix, {'use_c': use_c, 'window': 2}, show_progress=False)}
@@ -489,7 +505,7 @@ def model_kinds(E, seed):
             np.random.seed(3)
             import random
             random.seed(3)
-            cl, it = st['o'].fit(S, use_c=use_c, use_parallel=False)
+            cl, it = st['o'].fit(S, use_parallel=False)
             return (sorted((int(k), sorted(int(i) for i in v)) for k, v in cl.items()), [list(map(float, m)) for m in st['o'].means])
         kinds.append(('KMeans(%s)' % ('c' if use_c else 'py'), f_km,
                       {'fit5': lambda st: kfit(st, coll), 'fit4': lambda st: kfit(st, coll2)}))
@@ -505,7 +521,9 @@ def model_kinds(E, seed):
                        'hier_md': lambda st: hier.Hierarchical(dtw.distance_matrix, st['opts'], max_dist=2.0 * abs(a1 - a0), show_progress=False).fit(coll),
                        'search': lambda st: matches(subsequence_search(query, cands, dists_options=dict_without(st['opts'], 'use_c'), use_c=use_c).kbest_matches(2)),
                        'search_shared': lambda st: matches(subsequence_search(query, cands, dists_options=st['opts'], use_c=use_c, max_dist=1.2 * abs(a1 - a0)).kbest_matches(2)),
-                       'kmeans': lambda st: (np.random.seed(3), km.KMeans(k=2, max_it=2, max_dba_it=2, drop_stddev=None, dists_options=st['opts'], show_progress=False).fit(coll, use_c=use_c, use_parallel=False)[0])[1]}))
+                       'kmeans': lambda st: (np.random.seed(3), km.KMeans(k=2, max_it=2, max_dba_it=2, drop_stddev=None, dists_options=st['opts'], show_progress=False).fit(coll, use_parallel=False)[0])[1]}))
+    for uc in (False, True):
+        add_kinds(uc)
     inputs = [query, long_] + cands + coll + coll2
     return kinds, inputs
 
@@ -536,6 +554,10 @@ def check_model_histories(acc, E, seed, depth, shard, nshards):
         for n in names:
             r = core.call(ops[n], factory())
             iso[n] = r if isinstance(r, core.Exc) else canon(r)
+            if isinstance(r, core.Exc) and shard == 0:
+                # an operation of the catalogue must work on a fresh object, otherwise its histories would be compared vacuously
+                acc.violation('history', kname.split('(')[0], 'c' if '(c' in kname else 'py', {'what': 'model history', 'model': kname, 'last': n, 'depth': 0},
+                              {'model': kname, 'history': [n]}, 'a result on a fresh object', repr(r))
         for d in range(1, depth + 1):
             for hist in itertools.product(names, repeat=d):
                 idx += 1
@@ -715,7 +737,7 @@ def run(ctx):
             acc.violation('container', parts[0], 'py', {'api': parts[0], 'numpy': False, 'what': 'numpy absent'}, {'key': key}, exp, val)
     return core.finish(
         PROP, ctx.tier, ctx.seed, acc,
-        rule='every API of a catalogue (25 pair-level, 22 collection-level routines incl. the option variants of the averaging loop (thr=None, keep_averages, explicit initial average taken from the collection, mask), both engines) x every combination of container representations for its series arguments '
+        rule='every API of a catalogue (25 pair-level, 26 collection-level routines incl. the single C averaging step, serial k-means with a fixed seed and the option variants of the averaging loop (thr=None, keep_averages, explicit initial average taken from the collection, mask), both engines) x every combination of container representations for its series arguments '
              '(list, tuple, array.array, ndarray contiguous / strided / reversed / row of a matrix / Fortran-ordered slices / transposed views / exactly F-contiguous / read-only; list/tuple of arrays, strided rows, SeriesContainer, 2-D and 3-D arrays in C, strided and Fortran order); '
              'each array lives in a larger poisoned buffer (two poison values); every call is judged for untouched inputs and guard zones, independence of the poison, repeatability and equality with the canonical representation; '
              'histories: every sequence up to depth 3 of 13 routines sharing the same series objects; every sequence up to depth 3 of the operations of one shared model object (SubsequenceSearch with/without max_dist, SubsequenceAlignment, LocalConcurrences, Hierarchical incl. HierarchicalTree wrappers and a changed max_dist, KMeans with a fixed random seed) and of consumers of one shared settings dictionary, in both engines, each step compared with the same operation on a fresh object; NumPy absent: the NumPy-free routines in a NumPy-less interpreter; non-trivial = non-canonical container or history length >= 2',
